@@ -969,6 +969,14 @@ var SetProductFunc = function.New(&function.Spec{
 					listCount++
 					break
 				}
+				if !arg.IsKnown() && aty.HasDynamicTypes() {
+					// The element types of an unknown tuple are only
+					// constraints while they contain dynamic placeholders,
+					// so we can't predict their common type yet.
+					elemTys[i] = cty.DynamicPseudoType
+					listCount++
+					break
+				}
 				ety, _ := convert.UnifyUnsafe(allEtys)
 				if ety == cty.NilType {
 					return cty.NilType, function.NewArgErrorf(i, "all elements must be of the same type")
